@@ -317,10 +317,18 @@ def r5_write_arms(ctx):
     yield Ob('x12file:X12Writer.Write has a default arm', has_else, ctx.floc(f), '' if has_else else 'ordinary segments are not written')
 
 
+def r6_shared_counters(ctx):
+    """the counts the writer prints are the X12Base counters: where they are incremented and reset is C04.R1"""
+    from . import c04 as _c04
+    for o in _c04.r1_wiring(ctx):
+        yield o
+
+
 RULES = [
     Rule('C11.R1', 'only the two write helpers touch the stream; both use the writer delimiters + eol', r1_who_writes, floor=4),
     Rule('C11.R2', 'synthesized trailer counts equal what the reader compares with; control number is the loop\'s own', r2_counts, floor=10),
     Rule('C11.R3', 'trailer->header pairing, _close_loop dispatch, _popToLoop order, Close', r3_pairing, floor=4),
     Rule('C11.R4', 'ISA16/ISA11 carry the writer\'s separators before formatting', r4_isa_delims, floor=1),
     Rule('C11.R5', 'every arm of Write regenerates a trailer or writes the segment once after the bookkeeping', r5_write_arms, floor=4),
+    Rule('C11.R6', 'shared with C04.R1: the counters behind the generated trailers are incremented and reset where the envelope says', r6_shared_counters, floor=37),
 ]
